@@ -12,8 +12,8 @@ use crate::intermediate::{
     GREATER_THAN, LEFT_PARENTHESIS, LESS_THAN, MACRO, PIPE, RIGHT_PARENTHESIS,
 };
 use crate::lexer::common::{
-    in_parentheses, module_reference, skip_ws_and_comments, type_reference, uppercase_identifier,
-    value_reference,
+    in_parentheses, keyword, module_reference, skip_ws_and_comments, type_reference,
+    uppercase_identifier, value_reference,
 };
 use crate::lexer::error::{MiscError, ParserResult};
 use crate::lexer::{asn1_type, asn1_value};
@@ -124,14 +124,14 @@ fn macro_body(input: Input<'_>) -> ParserResult<'_, MacroBody<'_>> {
         (
             preceded(
                 pair(
-                    skip_ws_and_comments(tag("TYPE NOTATION")),
+                    skip_ws_and_comments(keyword("TYPE NOTATION")),
                     skip_ws_and_comments(tag(ASSIGN)),
                 ),
                 skip_ws_and_comments(macro_alternative_list),
             ),
             preceded(
                 pair(
-                    skip_ws_and_comments(tag("VALUE NOTATION")),
+                    skip_ws_and_comments(keyword("VALUE NOTATION")),
                     skip_ws_and_comments(tag(ASSIGN)),
                 ),
                 skip_ws_and_comments(macro_alternative_list),
@@ -309,7 +309,7 @@ fn symbol_defn(input: Input<'_>) -> ParserResult<'_, SymbolDefn<'_>> {
                 ),
                 map(
                     delimited(
-                        tag("VALUE"),
+                        skip_ws_and_comments(tag("VALUE")),
                         skip_ws_and_comments(macro_type),
                         skip_ws_and_comments(char(RIGHT_PARENTHESIS)),
                     ),
